@@ -195,6 +195,7 @@ type pathState struct {
 	onceDone  map[*value]bool
 	known     map[uint64][]knownEnt
 	jsonReg   *jsonRegistry
+	coState   *coState
 	curModel  map[string]uint64 // a model of the current path condition, if known
 	fresh     int
 }
